@@ -56,6 +56,9 @@ f := func(y) { return y + s }
 try { throw "z" } catch e { s += len(e.Message) } finally { m.fin = true }
 if x == 7 { throw "uncaught at main level" }
 g := func(y) { if y == 8 { return 1 / (y - 8) }; return y }
+k2 := func(y) { if y == 9 { throw "depth2" }; return y + 1 }
+k1 := func(y) { r := k2(y); try { k2(9) } catch e2 { r += len(e2.Message) }; return r }
+s += k1(x)
 return [s, m, f(1), g(x), import("obsmod").v, obscb(func() { return s + 1 }), obscb(f, 2)]`
 
 // verifObsGlobals: the observation script calls script functions through a
@@ -338,6 +341,12 @@ var verifC07First = [...]string{
 	"f := func() { try { return 1 } finally { throw \"fin\" } }\ntry { f() } catch e { }\nreturn f()",
 	// abort while a pooled child VM runs a script function inside a Go callback
 	"f := func() { abort(); for i := 0; i < 100; i++ { } ; return 1 }\nreturn callback(f)",
+	// abort at call depth 2 while the frames at depth 0, 1 are inside live try statements
+	"f := func() { abort(); for i := 0; i < 100; i++ { } ; return 1 }\ng := func() { try { return f() } catch e { return \"c\" } finally { out(\"fin\") } }\nh := func() { try { return g() } finally { out(\"h\") } }\nreturn h()",
+	// frame overflow with a live try statement in every frame
+	"var f\nf = func(d) { try { return f(d + 1) + 1 } finally { d = 0 } }\nreturn f(0)",
+	// uncaught error from depth 3 with live try/finally statements at depths 1 and 2 whose finally blocks fail too
+	"d3 := func() { throw \"d3\" }\nd2 := func() { try { return d3() } finally { throw \"f2\" } }\nd1 := func() { try { return d2() } finally { out(1 / 0) } }\nreturn d1()",
 	// modules of its own (other modules than the observation script's, at the same cache indexes), with state
 	"m := import(\"firstmod\")\nm.v = 99\ng := import(\"firstgo\")\ng.box.k = 2\nreturn [m.v, g.box.k]",
 	// the same from inside a function run by a pooled child VM, ending with an error
